@@ -338,6 +338,8 @@ def run_witness_task(task):
             try:
                 if kind == "closed-resume":
                     script, info = with_time_limit(min(left, task["timeout"]), W.search, su, U, k, K, "closed", resume=True, timeout_s=int(min(left, task["timeout"])))
+                elif kind == "idem":
+                    script, info = with_time_limit(min(left, task["timeout"]), W.search, su, U, k, K, "idem", timeout_s=int(min(left, task["timeout"])))
                 elif kind == "contract":
                     script, info = with_time_limit(min(left, task["timeout"]), W.search, su, U, k, K, "contract", early=True, timeout_s=int(min(left, task["timeout"])))
                 else:
